@@ -102,6 +102,19 @@ def run(ctx):
     if ch is not None:
         names = sorted({t.j.get("callee_name") for b, t in ch.calls()})
         ctx.ob("R1", "changed=st_ctime", "ctime" in names and "ctime_nsec" in names and not ({"mtime", "atime", "mtime_nsec", "atime_nsec", "modified", "accessed"} & set(names)), "Metadata::changed is built from %s; oracle ctime()+ctime_nsec()" % names, fn=ch, how="call sites")
+    # full resolution: no function of the time matchers or of the timestamp constructors goes through floating point
+    # (an f64 has 53 bits: a timestamp of today with nanoseconds needs 61, so two distinct timestamps compare equal)
+    nfl = 0
+    for f in sorted(ctx.prog.fns.values(), key=lambda f: f.path):
+        if not (f.path.startswith(T) or f.path.startswith("<std::fs::Metadata as " + T) or ("as " + T) in f.path or f.path.startswith("findutils::find::time::")):
+            continue
+        if "::tests::" in f.path:
+            continue
+        nfl += 1
+        fl = sorted({l["ty"] for l in f.locals if l["ty"] in ("f64", "f32")})
+        fc = sorted({(t.callee or "") for b, t in f.calls() if "f64" in (t.callee or "") or "f32" in (t.callee or "")})
+        ctx.ob("R2", "no-float@%s" % prim.short(f.path), not fl and not fc, "timestamps and ages are integers (seconds, nanoseconds) end to end; floating-point locals %s, calls %s" % (fl, fc), fn=f, how="local types + call sites", nontrivial=False)
+    ctx.floor("R2", "no-float functions", nfl, 17)
     ps = ctx.fn("R1", M + "parse_str_to_newer_args")
     if ps is not None:
         tests = prim.str_tests(ps)
